@@ -117,6 +117,13 @@ def race(case, res):
                 break
             other = rng.choice(prm.get("others", ["reply", "reply", "caller-eof", "owner-eof", "owner-rst", "caller-rst"]))
             first = rng.choice(["timer", "other", "shuffle"])
+            # the owner may give up everything it owns while its answers are still outstanding: the requests stay routed
+            orphaned = rng.random() < prm.get("orphan", 0.3)
+            if orphaned:
+                for path in ("r/s", "r/m"):
+                    S.request(own, "remove", {"path": path})
+                S.settle()
+                S.sig("race-orphaned-owner", other)
             # make the other event ready, then move the clock to the deadline WITHOUT letting the daemon run in between
             if other == "reply":
                 for p in ps:
@@ -145,7 +152,16 @@ def race(case, res):
                 S.step(shuffle=rng.randrange(1, 1 << 30))
             S.stats["race_batches"] += 1
             S.settle()
-            if own.closed or cal.closed or own.ended or cal.ended:
+            if orphaned and not (own.closed or own.ended):
+                # whatever is left of the requests is answered late, and the clock runs past every deadline
+                for p in ps:
+                    if rng.random() < 0.5:
+                        S.reply(own, p, "result")
+                        p.race = True
+                S.settle()
+                S.advance(3 * 10**9)
+                S.settle()
+            if orphaned or own.closed or cal.closed or own.ended or cal.ended:
                 break
         st = S.close_all()
         S.check_idle_baseline(st)
